@@ -725,6 +725,40 @@ func ruleReplyAddr(c *Ctx, a *udpAnchors) {
 		}
 		n++
 		key := short(rs.rf)
+		// a reply that was read is sent to the client unless something failed: from the success edge of the read, every
+		// return that is reached without passing the send to the client reports an error (no silent drop, e.g. of replies
+		// with an empty payload)
+		for _, rd := range rs.reads {
+			g := rd.Parent()
+			ei := errLikeResultIndex(g.Signature)
+			sameFn := false
+			for _, w := range rs.writes {
+				if w.Parent() == g {
+					sameFn = true
+				}
+			}
+			if !sameFn || ei < 0 {
+				continue
+			}
+			isWrite := func(ins ssa.Instruction) bool {
+				for _, w := range rs.writes {
+					if ins == ssa.Instruction(w) {
+						return true
+					}
+				}
+				return false
+			}
+			succ, _ := p.SuccessEdges(g, []ssa.CallInstruction{rd}, 2)
+			for _, e := range sortedEdges(succ) {
+				for _, ri := range eng.ReachableInstrs(edgePoint(e), func(ins ssa.Instruction) bool { _, ok := ins.(*ssa.Return); return ok }, isWrite) {
+					r := ri.(*ssa.Return)
+					if ei >= len(r.Results) {
+						continue
+					}
+					c.CheckAt("REPLYADDR", key+":a-reply-read-is-sent-or-fails-with-an-error", r, p.DefinitelyNonNil(r.Results[ei], r), "a reply that was read from the association's socket can be dropped without being sent to the client and without an error (this return reports success): datagrams arriving at the association's address are not all delivered")
+				}
+			}
+		}
 		if len(rs.parses) == 0 {
 			c.CheckAt("REPLYADDR", key+":sender-address-encoded-per-reply", rs.reads[0], false, "the reply path does not encode the sender address of each reply with socks.ParseAddr(raddr.String()) (e.g. it reuses a cached encoding): replies can carry another sender's address")
 		}
